@@ -1,6 +1,7 @@
 package rules
 
 import (
+	"slipcheck/lenflow"
 	"fmt"
 	"go/ast"
 	"go/token"
@@ -31,6 +32,7 @@ func runC16(c *core.Ctx, r *core.Reporter) {
 	c16hier(c, r)
 	c16key(c, r)
 	c16coerce(c, r)
+	c16total(c, r)
 }
 
 // hierarchyLiterals returns the symbol lists a Hierarchy() method can return.
@@ -198,6 +200,8 @@ func c16key(c *core.Ctx, r *core.Reporter) {
 	const key = "C16.key"
 	const pres = "C16.presence"
 	r.Rule(key, "every lookup, store or delete on a value of type slip.HashTable has a key that is a constant, a value of a statically hashable type, or an Object that passed a type test on the way (a type switch or assertion restricting it to hashable kinds): an arbitrary Object key faults the host for lists, vectors, octets and hash tables", 3)
+	const equiv = "C16.equiv"
+	r.Rule(equiv, "every lookup, store or delete on a slip.HashTable uses a key that is a constant, a value of a type for which Go's == is the language's eql (fixnum, character, octet ...), or the result of a key-normalising call: the table is a Go map, so an arbitrary Object key is compared by Go identity and two eql bignums, ratios or long-floats (pointers), symbols that differ in case, or equalp strings are different keys", 3)
 	r.Rule(pres, "every lookup in a slip.HashTable uses the comma-ok form and the ok value is used: nil is a legal stored value, so a missing key must be told apart from a key bound to nil (equalp on tables, gethash)", 2)
 	for _, fn := range c.ModuleFuncs() {
 		for _, b := range fn.Blocks {
@@ -240,6 +244,12 @@ func c16key(c *core.Ctx, r *core.Reporter) {
 					okKey, why = true, "key taken from a map being ranged over"
 				}
 				r.Decide(okKey, key, name, c.Pos(in.Pos()), why)
+				// equivalence of keys: the table is a Go map, whose key equality is Go's ==
+				okEq, whyEq := equivalentKey(k, 0)
+				if !okEq && keyFromRangeOfAny(k) {
+					okEq, whyEq = true, "key taken from a map being ranged over (already stored in that form)"
+				}
+				r.Decide(okEq, equiv, name, c.Pos(in.Pos()), whyEq)
 			}
 		}
 	}
@@ -304,4 +314,143 @@ func hashableKey(k ssa.Value, depth int) (bool, string) {
 		return hashableKey(x.X, depth+1)
 	}
 	return false, "key is an arbitrary Object (no type test on the way): a list, vector, octets or hash-table key faults the host with 'hash of unhashable type'"
+}
+
+// equivalentKey: Go equality of the key value coincides with the table's notion of an equivalent key.
+func equivalentKey(k ssa.Value, depth int) (bool, string) {
+	if depth > 6 {
+		return false, "key provenance too deep"
+	}
+	switch x := k.(type) {
+	case *ssa.Const:
+		return true, "constant key"
+	case *ssa.MakeInterface:
+		t := x.X.Type()
+		if _, isPtr := t.Underlying().(*types.Pointer); isPtr {
+			return false, "key is a pointer: equal values are different keys"
+		}
+		if core.IsNamed(t, core.SlipPath, "Symbol") {
+			return false, "symbols compare without regard to case but the map key is case sensitive"
+		}
+		if bt, ok := t.Underlying().(*types.Basic); ok && bt.Info()&(types.IsInteger|types.IsString|types.IsBoolean) != 0 {
+			return true, "key of a type whose Go equality is eql"
+		}
+		return false, "key of type " + t.String()
+	case *ssa.Call:
+		if g := x.Call.StaticCallee(); g != nil && g.Pkg != nil && core.InModule(g.Pkg.Pkg) {
+			return true, "key produced by " + g.Name() + " (a normalising call)"
+		}
+	case *ssa.Phi:
+		for _, e := range x.Edges {
+			if ok, why := equivalentKey(e, depth+1); !ok {
+				return false, why
+			}
+		}
+		return true, "all incoming keys normalised"
+	case *ssa.ChangeInterface:
+		return equivalentKey(x.X, depth+1)
+	}
+	return false, "key is an arbitrary Object compared by Go identity: (setf (gethash k h) v) followed by (gethash k2 h) with k2 eql k misses for bignums, ratios, long-floats and symbols that differ in case"
+}
+
+// c16total: the equality predicates answer for every pair of objects.
+func c16total(c *core.Ctx, r *core.Reporter) {
+	const rule = "C16.total"
+	r.Rule(rule, "in the Call method of eq, eql, equal and equalp every call that can raise a condition, other than the argument-count check, is reached only through successful type tests of both operands (the numeric comparison raises for anything that is not a number): the equivalence predicates are total, (eql 'a 'b) is nil, not an error", 4)
+	lf := lenflow.New(c)
+	ri := &raiseInfo{memo: map[*ssa.Function]int{}, lf: lf, callers: buildCallSites(c).callers}
+	for _, name := range []string{"eq", "eql", "equal", "equalp"} {
+		b := c.ByName("pkg/cl", name)
+		if b == nil || b.Call == nil {
+			r.Undecided(rule, "pkg/cl:"+name, "-", "built-in not found in the registry")
+			continue
+		}
+		fn := c.SSAFunc(b.Call)
+		var argsP *ssa.Parameter
+		for _, p := range fn.Params {
+			if isObjectSlice(p.Type()) {
+				argsP = p
+			}
+		}
+		var bad []string
+		n := 0
+		visited := map[*ssa.Function]bool{}
+		// operand(v): which of the two operands v denotes in function f (-1: neither)
+		var check func(f *ssa.Function, operand func(ssa.Value) int, depth int)
+		check = func(f *ssa.Function, operand func(ssa.Value) int, depth int) {
+			if visited[f] || depth > 4 {
+				return
+			}
+			visited[f] = true
+			g := core.ComputeGuards(f, lf.NoReturn)
+			for _, bb := range f.Blocks {
+				for _, in := range bb.Instrs {
+					call, ok := in.(*ssa.Call)
+					if !ok {
+						continue
+					}
+					cg := call.Call.StaticCallee()
+					if cg != nil && strings.HasPrefix(cg.Name(), "CheckArgCount") {
+						continue
+					}
+					can, why := ri.canRaise(call, 0)
+					if !can {
+						continue
+					}
+					// both operands must have passed a type test on the way
+					tested := map[int]bool{}
+					for fct := range g.Facts(bb) {
+						ex, ok := fct.If.Cond.(*ssa.Extract)
+						if !ok || ex.Index != 1 || !fct.Branch {
+							continue
+						}
+						ta, ok := ex.Tuple.(*ssa.TypeAssert)
+						if !ok || !ta.CommaOk {
+							continue
+						}
+						if i := operand(ta.X); i >= 0 {
+							tested[i] = true
+						}
+					}
+					if tested[0] && tested[1] {
+						n++
+						continue
+					}
+					// a helper of the module that receives the operands: judged inside
+					if cg != nil && cg.Pkg != nil && core.InModule(cg.Pkg.Pkg) && cg.Blocks != nil {
+						pmap := map[*ssa.Parameter]int{}
+						for ai, a := range call.Call.Args {
+							if i := operand(a); i >= 0 && ai < len(cg.Params) {
+								pmap[cg.Params[ai]] = i
+							}
+						}
+						if len(pmap) >= 2 || visited[cg] {
+							sub := func(v ssa.Value) int {
+								if p, ok := v.(*ssa.Parameter); ok {
+									if i, has := pmap[p]; has {
+										return i
+									}
+								}
+								return -1
+							}
+							check(cg, sub, depth+1)
+							continue
+						}
+					}
+					n++
+					bad = append(bad, fmt.Sprintf("%s %s", c.Pos(call.Pos()), why))
+				}
+			}
+		}
+		check(fn, func(v ssa.Value) int {
+			if ia, p, ok := listElemLoad(v); ok && p == argsP {
+				if k, isK := ia.Index.(*ssa.Const); isK && (k.Int64() == 0 || k.Int64() == 1) {
+					return int(k.Int64())
+				}
+			}
+			return -1
+		}, 0)
+		sort.Strings(bad)
+		r.Decide(len(bad) == 0, rule, "pkg/cl:"+name, c.Pos(fn.Pos()), orOKs(strings.Join(bad, "; "), fmt.Sprintf("%d raising calls, all behind type tests of both operands", n)))
+	}
 }
